@@ -130,6 +130,12 @@ def run(ctx):
     r7_view_owner(ctx)
     r8_pairing_after_length(ctx)
     r9_always_filtered(ctx)
+    # "leaves the four tables mutually consistent": the parameter tables are narrowed with where(<id column>=<set of kept ids>) and stay marked as indexed
+    from . import c17
+    ctx.rule("C18.R10", "narrowing a parameter table by a set of ids keeps it sorted: Table._compare's indexed 'in' arm visits sorted(set(values)) -- ranges in set-iteration order would "
+                        "leave a table that claims to be indexed but is not, and later look-ups by id go wrong")
+    c17.in_arm_sorted_distinct(ctx, "C18.R10")
+    r11_pairing_not_skipped(ctx)
 
 
 def _table_of(expr):
@@ -433,6 +439,27 @@ def r7_view_owner(ctx):
     ctx.floor("C18.R7", "View(...) over rows from _remove", n, 3)
 
 
+def r11_pairing_not_skipped(ctx, rule="C18.R11"):
+    """raw_learners pairs and truncates through _finished whenever a pairing column is given -- the number of learners is no reason to skip it
+    (_finished also equalises lengths, and `l` need not be the learner)."""
+    ctx.rule(rule, "raw_learners / raw_contrast call _finished under exactly the guard `p` (the pairing column): no further condition (e.g. on the number of learners) may skip the "
+                   "equal-length / complete-pairing filter")
+    cls = ctx.model.cls(RES, "Result")
+    n = 0
+    for mname in ("raw_learners", "raw_contrast"):
+        fn = cls.methods.get(mname)
+        if fn is None:
+            continue
+        P = "p"
+        for c in [c for c in ast.walk(fn) if isinstance(c, ast.Call) and call_tail(c) == "_finished"]:
+            n += 1
+            from ..util import all_guards
+            gs = [(unparse(t), pol) for t, pol in all_guards(c, fn)]
+            ok = all(pol and t == P for t, pol in gs)
+            ctx.ob(rule, RES, f"Result.{mname}", c, "the finishing filter is applied whenever a pairing column is given (guards: only `p`)", ok, detail={"guards": gs})
+    ctx.floor(rule, "calls of _finished in the raw_* methods", n, 1)
+
+
 def r9_always_filtered(ctx, rule="C18.R9"):
     """the pairing filter is computed for the arguments of THIS call: no shortcut around it, no memo in front of it."""
     from ..cfg import CFG, forward
@@ -487,6 +514,8 @@ def r9_always_filtered(ctx, rule="C18.R9"):
 
 
 CONTROLS = [
+    ("a single learner skips the finishing filter", RES, M.replace_expr("Result.raw_learners", "p", "p and len(self.learners) > 1", nth=0), "C18.R11"),
+    ("indexed 'in' iterates a set as it comes", RES, M.replace_expr("Table._compare", "sorted(set(arg))", "arg if isinstance(arg, (set, frozenset)) else sorted(set(arg))"), "C18.R10"),
     ("where_best passes its None on", RES, M.delete_stmt("Result.filter_best", M.text_has("if p is None")), "C18.R9"),
     ("['index'] is not the index", RES, M.replace_expr("Result._finished", "x == 'index' or list(x) == ['index']", "x == 'index'"), "C18.R9"),
     ("filter_int counts kept evaluations instead of ids", RES, M.replace_expr("Result.filter_int", "map(set, zip(*to_keep)) if to_keep else (set(), set(), set())", "zip(*to_keep) if to_keep else ([], [], [])"), "C18.R1"),
